@@ -261,10 +261,7 @@ func (w *world) checkSeen(ep *endpoint, e int, quiescent bool) {
 		if times > 1 {
 			bad(fmt.Sprintf("operation %s was handled %d times", tag, times))
 		}
-		wantMethod := w.callPath
-		if s.mtype == 3 {
-			wantMethod = w.pushPath
-		}
+		wantMethod := op.path
 		if s.v1.method != wantMethod {
 			bad(fmt.Sprintf("%s: service method %q, sent %q", tag, s.v1.method, wantMethod))
 		}
@@ -276,6 +273,12 @@ func (w *world) checkSeen(ep *endpoint, e int, quiescent bool) {
 		}
 		if !kvEqual(s.v1.meta, op.meta) {
 			bad(fmt.Sprintf("%s: metadata %s is not what its sender supplied (%s)", tag, kvString(s.v1.meta), kvString(op.meta)))
+		}
+		if s.vMid != nil && !s.v1.equal(s.vMid) {
+			bad(fmt.Sprintf("%s: inside the handler, after another invocation of the same route had started, the context showed a different request: first %s then %s", tag, s.v1.String(), s.vMid.String()))
+		}
+		if s.peeks != "" {
+			bad(fmt.Sprintf("%s: PeekMeta inside the handler (after the yield) answered with another request's values: %s", tag, s.peeks))
 		}
 		if s.v2 != nil && !s.v1.equal(s.v2) {
 			bad(fmt.Sprintf("%s: the context showed a different request when read again later: first %s then %s", tag, s.v1.String(), s.v2.String()))
